@@ -5,6 +5,7 @@ of the parsed tree, occurrence counts in the generating syntax tree.  Every
 name occurring in the document, absent names, list queries and
 full-expression queries; every node of the tree as search root.
 """
+import random
 from collections import Counter
 
 from tsv.base import Prop, fail, short
@@ -101,8 +102,25 @@ class C03(Prop):
         n = 2500 if tier == 'quick' else 50000
         yield from common.doc_cases(seed, n, want, 'c03',
                                     lambda j: cfg_search(j, tier))
+        # documents that also hold a verbatim-like environment WITH arguments
+        # (the arguments are parsed, the body is not): judged against the
+        # raw-tree walk only
+        m = 300 if tier == 'quick' else 6000
+        for j in range(m):
+            k = n + j + 1
+            if not want(k):
+                continue
+            rng = random.Random('%d/%d/c03v' % (seed, j))
+            src, ast = docgen.gen_doc(rng, cfg_search(j, tier))
+            name = rng.choice(docgen.VENV)
+            tail = '\\begin{%s}[caption={Loop in \\textbf{C} by \\foo}, label=\\ref{l}]raw $ { \\bar \\end{%s}' % (name, name)
+            wrap = rng.choice([('', ''), ('\\begin{center}', '\\end{center}'), ('{', '}'),
+                               ('\\begin{itemize}\\item ', '\\end{itemize}')])
+            yield k, {'src': src + '\n' + wrap[0] + tail + wrap[1] + '\n\\foo{end}', 'verbarg': True}
 
     def nontrivial(self, p):
+        if p.get('verbarg'):
+            return True
         c = ast_counts(docgen.totuple(p['ast']))
         return any(v >= 2 for v in c.values())
 
@@ -112,14 +130,25 @@ class C03(Prop):
     def check(self, p, ctx):
         from TexSoup.data import TexNode, TexEnv
         src = p['src']
-        ast = docgen.totuple(p['ast'])
-        soup = common.parse(src)
-        counts = ast_counts(ast)
+        if p.get('verbarg'):
+            try:
+                soup = common.parse(src)
+            except (EOFError, TypeError, AssertionError):
+                ctx.count('verbarg_documents_rejected')
+                return []
+            ctx.count('verbarg_documents')
+            counts = {}
+        else:
+            ast = docgen.totuple(p['ast'])
+            soup = common.parse(src)
+            counts = ast_counts(ast)
         names = sorted(n for n in counts if n not in AMBIGUOUS
                        and '{' not in n and '[' not in n)
         container_kinds(soup.expr, ctx)
         # (1) ground truth from the generator: count(name) at the root
-        for name in names + ABSENT:
+        if p.get('verbarg'):
+            names = ['foo', 'textbf', 'ref', 'bar', 'x', 'center']
+        for name in ([] if p.get('verbarg') else names + ABSENT):
             got = soup.count(name)
             ctx.count('ast_count_queries')
             if got != counts.get(name, 0):
@@ -193,11 +222,15 @@ class C03(Prop):
         return []
 
     def shrink(self, p, still_fails):
+        if p.get('verbarg'):
+            return p
         return common.shrink_doc(p, still_fails, budget=120)
 
     def gates(self, m, tier):
         g = []
         c = m['counters']
+        if c.get('verbarg_documents', 0) < 100:
+            g.append('fewer than 100 documents with an argument-bearing verbatim environment')
         if c.get('queries_with_matches', 0) < 20000:
             g.append('fewer than 20000 queries with matches')
         if c.get('attribute_queries', 0) < 5000:
